@@ -20,17 +20,22 @@ CHECKS = {
  "C11": ("generated probes of identity/is_alive/upgrade through every derived handle kind at every lifecycle phase; oracle from the trace (phase known) and the harness-side strong-handle count", "5/C11"),
 }
 
-PENDING = {
- "C12": "check under construction in this round (planned: DESIGN.md section 5/C12, fault injection in multi-actor simulations)",
- "C13": "check under construction in this round (planned: DESIGN.md section 5/C13, captured tracing events vs returned errors)",
- "C14": "check under construction in this round (planned: DESIGN.md section 5/C14)",
- "C15": "check under construction in this round (planned: DESIGN.md section 5/C15)",
- "C16": "check under construction in this round (planned: DESIGN.md section 5/C16, direct-vs-erased differential)",
- "C17": "check under construction in this round (planned: DESIGN.md section 5/C17, real-thread engine)",
- "C18": "check under construction in this round (planned: DESIGN.md section 5/C18, differential across feature builds)",
- "C19": "check under construction in this round (planned: DESIGN.md section 5/C19, generated macro corpus)",
- "C20": "check under construction in this round (planned: DESIGN.md section 5/C20)",
+CHECKS.update({
+ "C12": ("fault injection (panic / error in a generated hook invocation of one actor of a 2-4 actor system with peer asks/tells); every other monitor is applied to the whole system plus victim-specific checks, a fresh actor spawned afterwards, dead-letter accounting and (deadlock-detection build) wait-for-graph residue / mutex health", "5/C12"),
+ "C13": ("generated operations against actors in every lifecycle state; dead-letter records captured by an in-process tracing subscriber are matched one-to-one (points-to-intervals matching) against failed operations: target id, message type name, reason <-> error kind, operation label; dead_letter_count() delta == number of failures", "5/C13"),
+ "C14": ("generated ask topologies (cycles of length 1..5 through handlers and lifecycle hooks, ask and ask_with_timeout); logical wait-for graph of unanswered asks rebuilt from the trace; every ask that would close a cycle must panic naming every participant and nobody may be left waiting", "5/C14"),
+ "C15": ("same topology generator, acyclic-in-time patterns with timeouts / cancellations / failures; every deadlock panic must be justified by a chain of unanswered asks; the real wait-for graph (verification hook) sampled at every odd virtual millisecond must equal the set of asks in flight", "5/C15"),
+ "C16": ("metamorphic differential: each scenario run with plain handles and with every handle as a bundle of type-erased trait objects and every operation routed through a pseudo-randomly chosen equivalent erased path; canonical traces must be equal", "5/C16"),
+ "C18": ("differential across builds: the same scenarios run by harness builds with each feature subset and by a default-feature reference process; per-task canonical traces must be identical for every case without a logical ask cycle", "5/C18"),
+ "C19": ("generated programs (grammar over actor shape, generics, derive/manual, handler attribute x return spelling x message kind x parameter spelling, negative programs) compiled offline against the real macros and run; observations compared with the documented decision table; plus the runtime half (on_tell_result exactly once after tell, never after ask) in the simulator", "5/C19"),
+ "C20": ("message sequences with really sleeping handlers, metrics read through strong / cloned / weak-upgraded handles during and after the run; oracle: message_count vs handler entries, monotonicity, avg<=max, max>=measured, snapshot==accessors, same final values through every handle", "5/C20"),
+})
+RT_NOTE = ("Real-thread engine: the OS schedule is not owned or reproducible; only interleaving-sound oracles (logical stamps taken under one lock, multiset relations, "
+           "one-sided wall-clock bounds with 10 s slack, 1 ms tolerance on 'never early'). Trusted base: harness, tokio, proptest. Weaker evidence than the simulator's.")
+EXTRA = {
+ "C17": {"technique": "generated mixes of OS-thread / spawn_blocking / task clients issuing blocking_tell/blocking_ask (with and without timeout), deprecated aliases and async calls against live / slow / gated / full / stopped / dying actors on a multi_thread runtime; delivery, ordering by logical stamps, reply integrity, error kinds, dead-letter multiset, one-sided timeout bounds", "design_ref": "5/C17", "note": RT_NOTE, "engine": "rt"},
 }
+PENDING = {}
 
 def main():
     extra = {}
@@ -39,7 +44,7 @@ def main():
         extra = json.load(open(p))
     checks = []
     table = dict(CHECKS)
-    for k, v in extra.get("checks", {}).items():
+    for k, v in list(EXTRA.items()) + list(extra.get("checks", {}).items()):
         table[k] = (v["technique"], v["design_ref"], v.get("note"), v.get("engine"))
     for pid in sorted(table):
         t = table[pid]
@@ -74,6 +79,9 @@ def main():
         },
         "engines": [
             {"name": "sim", "path": "harness/src/sim.rs", "serves_properties": sorted(k for k in table if (len(table[k]) < 4 or not table[k][3] or table[k][3] == "sim")), "kind_free_text": "deterministic virtual-time simulation (paused current_thread tokio runtime) of generated scenarios against the real rsactor crate; proptest generates and shrinks the choice tape; pure trace monitors decide"},
+            {"name": "rt", "path": "harness/src/rt.rs", "serves_properties": ["C17", "C11"], "kind_free_text": "real-thread engine: multi_thread tokio runtime, OS threads and spawn_blocking closures, blocking API; also the concurrent id-allocation race for C11"},
+            {"name": "macrogen", "path": "harness/src/macrogen.rs", "serves_properties": ["C19"], "kind_free_text": "grammar-based generator of actor programs compiled offline against the real rsactor-derive macros (positive corpus crate + negative programs)"},
+            {"name": "extras", "path": "harness/src/extras.rs", "serves_properties": ["C05", "C09", "C11"], "kind_free_text": "generated non-scenario checks: ActorResult accessor laws (exhaustive + generated), default-capacity call sequences in fresh subprocesses, capacity-0 rejection, concurrent id allocation"},
         ] + extra.get("engines", []),
         "checks": checks,
         "notes": "All checks: exit 0 = held, 1 = VIOLATION line printed, 2 = inconclusive (build failure against an API-incompatible tree, watchdog). VERIF_SEED seeds every generator. Sensitivity results: DESIGN.md section 11.",
